@@ -806,6 +806,33 @@ _RANKED = (f"all({_GS}[n].name == n and glyphSet.rank[n] >= 0 and implies(len({_
            f"all(implies(c.baseGlyph in {_GS}, glyphSet.rank[c.baseGlyph] < glyphSet.rank[n]) for c in {_GS}[n].components)) for n in glyphSet.names)")
 _IN_SET = f"glyph.name in {_GS} and {_GS}[glyph.name] == glyph"
 _HASC = "len(glyph.components) > 0"
+_WALK = Tuple(INT, Set(STR))
+
+
+@specfn(_WALK, gs=Ref("C02_FGlyphSet"), name=STR, i=INT, V=Set(STR), d=INT)
+def gmcd_loop(gs, name, i, V, d):
+    """(depth, visited) after the components i, i+1, .. of glyph `name` were handled, starting from (d, V): a base that is missing or already
+    in V contributes nothing; any other base b contributes 1 + the first-visit height below b and adds what its walk visits."""
+    comps = gs.glyphs[name].components
+    if i >= len(comps):
+        return (d, V)
+    b = comps[i].baseGlyph
+    if b in gs.glyphs and b not in V:
+        r = gmcd_walk(gs, b, V)
+        return gmcd_loop(gs, name, i + 1, r[1], max(d, 1 + r[0]))
+    return gmcd_loop(gs, name, i + 1, V, d)
+
+
+@specfn(_WALK, gs=Ref("C02_FGlyphSet"), name=STR, V=Set(STR))
+def gmcd_walk(gs, name, V):
+    """THE FUNCTION THE CODE COMPUTES: (height of the depth-first FIRST-VISIT tree below glyph `name`, given that the names in V were visited
+    before; the visited set afterwards).  It is the height of the component tree only when no sub-composite is shared between two branches:
+    a glyph reached a second time is NOT descended into again, whatever depth it was first met at (known finding F-C02-1)."""
+    if len(gs.glyphs[name].components) == 0:
+        return (0, V)
+    return gmcd_loop(gs, name, 0, V | {name}, 1)
+
+
 _GMCD_POST = {
     "leaf": f"implies(not {_HASC}, result == maxComponentDepth)",
     "composite-at-least-one": f"implies({_HASC}, result >= maxComponentDepth + 1)",
@@ -820,6 +847,8 @@ _GMCD_LOOP = {
             "visited-grows": "all(n in visited for n in V1)",
             "stack": "rec_stack == RS1",
             "stack-ranks": "all(glyphSet.rank[rec_stack[k]] >= glyphSet.rank[glyph.name] for k in range(len(rec_stack)))",
+            # what remains to be done, as the spec function: finishing the loop from here gives the walk's result
+            "exact": "gmcd_loop(glyphSet, glyph.name, i, visited, maxComponentDepth - MCD0) == WALK0",
         },
     )
 }
@@ -853,12 +882,17 @@ contract(
         "own-name-visited": f"implies({_HASC}, glyph.name in visited)",  # MEASURE: ... and this name is in it afterwards
         "stack-restored": "rec_stack == old(rec_stack)",
         "leaf-touches-nothing": f"implies(not {_HASC}, visited == old(visited))",
+        # EXACTLY the first-visit height (see gmcd_walk), and exactly the names that walk visits
+        "exact-value": "result == maxComponentDepth + gmcd_walk(glyphSet, glyph.name, old(visited))[0]",
+        "exact-visited": "visited == gmcd_walk(glyphSet, glyph.name, old(visited))[1]",
     },
     raises={"InvalidFontData": "False"},  # never on a ranked (acyclic) glyph set
     canaries={"always-one": "result == maxComponentDepth + 1", "exact-height": "result == maxComponentDepth + glyphSet.rank[glyph.name]"},
-    ghost_vars={"V1": (Set(STR), "set()"), "RS1": (List(STR), "[]"), "RS0": (List(STR), "rec_stack")},
+    ghost_vars={"V1": (Set(STR), "set()"), "RS1": (List(STR), "[]"), "RS0": (List(STR), "rec_stack"), "MCD0": (INT, "maxComponentDepth"),
+                "WALK0": (_WALK, "gmcd_walk(glyphSet, glyph.name, visited)")},
     ghost={"rec_stack.append(glyph.name)": ["V1 = visited", "RS1 = rec_stack"]},
     hints=_GMCD_HINTS,
+    merge_branches=False,  # the three ways a component is handled (missing / descended into / already visited) stay separate paths
     seq_positions=True,  # `x in rec_stack` comes with a position witness
     loops=_GMCD_LOOP,
     locals={"baseGlyph": Ref("C02_FGlyph")},
@@ -878,12 +912,15 @@ contract(
         "simple-is-zero": f"implies(not {_HASC}, result == 0)",
         "composite-at-least-one": f"implies({_HASC}, result >= 1)",
         "at-most-height": "result <= glyphSet.rank[glyph.name]",
+        "exact-value": "result == gmcd_walk(glyphSet, glyph.name, set())[0]",  # the first-visit height from an empty `visited`
     },
     raises={"InvalidFontData": "False"},
     canaries={"always-zero": "result == 0"},
-    ghost_vars={"V1": (Set(STR), "set()"), "RS1": (List(STR), "[]"), "RS0": (List(STR), "[]")},
+    ghost_vars={"V1": (Set(STR), "set()"), "RS1": (List(STR), "[]"), "RS0": (List(STR), "[]"), "MCD0": (INT, "0"),
+                "WALK0": (_WALK, "gmcd_walk(glyphSet, glyph.name, set())")},
     ghost={"rec_stack.append(glyph.name)": ["V1 = visited", "RS1 = rec_stack"]},
     hints=_GMCD_HINTS,
+    merge_branches=False,  # the three ways a component is handled (missing / descended into / already visited) stay separate paths
     seq_positions=True,
     loops=_GMCD_LOOP,
     locals={"baseGlyph": Ref("C02_FGlyph"), "visited": Set(STR), "rec_stack": List(STR)},
@@ -1593,6 +1630,7 @@ contract(
     props=["C02", "C15"],
     params={"glyph": Ref("C02_FGlyph"), "glyphSet": Ref("C02_FGlyphSet")},
     returns=BOOL,
+    portfolio=["z3-5.1/ematch", "z3-5.1"],  # pure e-matching closes every obligation of this contract in < 0.5 s; model-based instantiation wanders in the large context
     modifies=["C02_FGlyph.components"],
     requires=[
         _CLOSED,  # no dangling component reference anywhere (otherwise _flattenComponent raises ValueError), contour counts are counts
